@@ -20,7 +20,9 @@ Inductive xop :=
 | XFault (nd : option nat) (g s d : bool)
 | XCorrupt (k : key) (g : nat) (ttl : Z)
 | XQRowC (id : nat)   (* QueryRow with an already cancelled context *)
-| XQIdxC (i : nat).   (* QueryRowIndex with an already cancelled context *)
+| XQIdxC (i : nat)    (* QueryRowIndex with an already cancelled context *)
+| XQRowE (id : nat)   (* QueryRow whose database query answers an error other than not-found *)
+| XGc.                (* runtime.GC() in the driver: nothing for the model *)
 
 Record oobs := mkobs { o_res : rres; o_q : nat; o_dump : list (nat * key * (cval * Z)) }.
 
@@ -42,9 +44,10 @@ Record case := mkcase {
   c_threads : list CA.cop;  (* level 3: one call per thread *)
   c_sched : list clbl;
   c_events : list oev;      (* observed: query begin/end, SET, DEL, database write, call start/return *)
-  c_cres : list (option (option nat)); (* observed result per thread (None: never ran); Some None = context error *)
+  c_cres : list (list (option nat));   (* observed results per thread, one per call, oldest first; None = context error *)
   c_ccache : list (option nat);        (* observed final cache entry per key *)
-  c_cdb : list nat                     (* observed final database per key *)
+  c_cdb : list nat;                    (* observed final database per key *)
+  c_more : list (nat * list CA.cop)    (* further calls of a thread *)
 }.
 
 Definition universe : list key := [PK 0; PK 1; PK 2; PK 3; IX 0; IX 1; IX 2].
@@ -71,6 +74,8 @@ Definition expand (c : case) (o : xop) : list cop :=
   | XCorrupt k g ttl => [COp (Corrupt k g ttl)]
   | XQRowC id => [COp (QueryCancelled (PK id))]
   | XQIdxC i => [COp (QueryCancelled (IX i))]
+  | XQRowE id => [COp (QueryRowDbErr id)]
+  | XGc => []
   end.
 
 (* run the expansion; the result is that of the last step *)
@@ -271,6 +276,25 @@ Definition spec_step (c : case) (s : sst) (o : xop) (ob : oobs) : bool * sst :=
   | XCorrupt k g ttl => (same_q, fin (clear_shield s k))
   (* a read under a cancelled context returns the context error and does not run the query, cached or not *)
   | XQRowC _ | XQIdxC _ => (rres_eqb (o_res ob) RCtxErr && same_q && ttl_ok c false s (o_dump ob), fin s)
+  | XGc => (same_q, fin s)
+  | XQRowE id =>
+      (* the database fails: the cache answers if it can (coherently); otherwise the error is returned and nothing
+         is stored for the key *)
+      let k := PK id in
+      let j := place_of c k in
+      let f := fl s j in
+      let ok :=
+        (if fg f then rres_eqb (o_res ob) RCacheErr && same_q else true) &&
+        (if negb (fg f) && shielded s k then same_q else true) &&
+        (if negb (fg f) then
+           if same_q then (if mem k (s_taint s) then true else rres_eqb (o_res ob) (expect_row (s_t s) id))
+           else one_q && rres_eqb (o_res ob) RDbErr &&
+                match dump_lookup (o_dump ob) j k with
+                | None => true
+                | Some x => entry_eqb (dump_lookup (s_dump s) j k) (Some x)
+                end
+         else true) in
+      (ok, fin s)
   end.
 
 Fixpoint spec_rows (c : case) (s : sst) (ops : list xop) (obs : list oobs) : bool * sst :=
@@ -318,8 +342,13 @@ Import CA.
 Definition to_lbl (l : clbl) : C18.Conc.lbl :=
   match l with LStart t => C18.Conc.Thr t | LOpen g => C18.Conc.Open g | LCancel t => C18.Conc.Adv t end.
 
+(* c_threads: the first call of every thread; a thread's further calls (made by the same goroutine right after
+   the first returns) follow in c_more *)
 Definition scripts_of (c : case) (t : nat) : list cop :=
-  match nth_error (c_threads c) t with Some o => [o] | None => [] end.
+  match nth_error (c_threads c) t with
+  | Some o => o :: match alookup Nat.eqb t (c_more c) with Some l => l | None => [] end
+  | None => []
+  end.
 
 Definition cev_eqb (a b : cev) : bool :=
   match a, b with
@@ -339,8 +368,8 @@ Definition conc_final (c : case) : state :=
 Definition model_ok_conc (c : case) : bool :=
   let s := conc_final c in
   list_eqb cev_eqb (rev (trace s)) (cevents c) &&
-  list_eqb (option_eqb (option_eqb Nat.eqb))
-           (map (fun t => match t_res (ts s t) with (_, r) :: _ => Some r | [] => None end) (seq 0 (List.length (c_threads c))))
+  list_eqb (list_eqb (option_eqb Nat.eqb))
+           (map (fun t => rev (map snd (t_res (ts s t)))) (seq 0 (List.length (c_threads c))))
            (c_cres c) &&
   list_eqb (option_eqb Nat.eqb) (map (cache s) (seq 0 (List.length (c_ccache c)))) (c_ccache c) &&
   list_eqb Nat.eqb (map (db s) (seq 0 (List.length (c_cdb c)))) (c_cdb c) &&
@@ -354,7 +383,7 @@ Definition gates0 (c : case) (t : nat) : bool :=
   | None => false
   end.
 Definition is_writer (c : case) (t : nat) : bool :=
-  match nth_error (c_threads c) t with Some o => k_writer o | None => false end.
+  match nth_error (c_threads c) t with Some o => k_writer o || k_set o | None => false end.
 
 Record cst := mkcs {
   x_fl : list nat;              (* keys with a query in flight *)
@@ -426,12 +455,16 @@ Definition qbegins (c : case) (k : nat) : nat :=
   List.length (filter (fun e => match e with OEv (EQBegin _ k') => Nat.eqb k k' | _ => false end) (c_events c)).
 Definition has_writer (c : case) (k : nat) : bool := existsb (fun o => k_writer o && Nat.eqb (k_key o) k) (c_threads c).
 
+(* result of the first call of thread t (None: never ran) *)
+Definition res1 (c : case) (t : nat) : option (option nat) :=
+  match nth t (c_cres c) [] with [] => None | r :: _ => Some r end.
+
 Definition spec_ok_conc (c : case) : bool :=
   let (ok, s) := cspec_run c (mkcs [] [] [] [] [] []) (c_events c) in
   ok &&
   (* a read that started alone, after every earlier operation on its key had finished and the last write had
      been followed by its delete, returns the database's current row *)
-  forallb (fun tv => match nth (fst tv) (c_cres c) None with
+  forallb (fun tv => match res1 c (fst tv) with
                      | Some (Some v) => Nat.eqb v (snd tv)
                      | Some None => existsb (fun l => match l with LCancel t => Nat.eqb t (fst tv) | _ => false end) (c_sched c)
                                     (* its own context was cancelled: the context error is the answer *)
@@ -439,7 +472,7 @@ Definition spec_ok_conc (c : case) : bool :=
                      end) (x_expect s) &&
   (* every reader is served: a value the database held, or the context error if a context of its key was cancelled *)
   forallb (fun t => if is_writer c t then true else
-             match nth t (c_cres c) None with
+             match res1 c t with
              | None => true
              | Some None => memn (key_of_thread c t) (cancelled_keys c)
              | Some (Some v) => Nat.eqb v 0 || memn v (written_vals c (key_of_thread c t))
@@ -448,7 +481,7 @@ Definition spec_ok_conc (c : case) : bool :=
      of a call of its key that was already under way: then it shares that call's result without any cache read
      of its own (and still never queries: see EQBegin above) *)
   forallb (fun t => if is_writer c t || negb (started_alone c t (c_events c) []) then true else
-             match nth t (c_cres c) None with Some None => true | _ => false end) (precancelled (c_sched c) []) &&
+             match res1 c t with Some None => true | _ => false end) (precancelled (c_sched c) []) &&
   (* the database is shielded: without writes and cancellations a key is queried at most once *)
   forallb (fun k => if has_writer c k || memn k (cancelled_keys c) then true else Nat.leb (qbegins c k) 1)
           (seq 0 (List.length (c_cdb c))).
